@@ -13,7 +13,7 @@ BDD = ['add', 'sub', 'sll', 'srl', 'sra', 'slt', 'sltu', 'and', 'or', 'xor', 'id
 
 PROPS = {}
 
-HOOK_COMMITS = ['4fd9baa', 'bc45a72', 'bdce4be']
+HOOK_COMMITS = ['4fd9baa', 'bc45a72', 'bdce4be', '6feeef9']
 
 NA_DFT = ('every clause is about the value of a polynomial product obtained through the DFT/NTT domain and about noise magnitudes: '
           'FFT64 is floating point (no f64 theory in Verus, CBMC did not finish one svp product at N=2), NTT120 is a chain of modular '
@@ -80,16 +80,16 @@ PROPS['C09'] = dict(
     level='proof',
     technique='Verus contracts (requires/ensures/loop invariants) on the real text of the coefficient-domain kernels and column operations, extracted mechanically each run; Kani for two bit-mask leaf facts',
     level_text='Unbounded proof (all N, sizes, columns, limb values): every limb of the selected column equals the exact ring map of the operand limbs by the documented size rule; rotation, automorphism and ring switching equal their Z[X]/(X^N+1) spec for every exponent; trait contracts discharged for the FFT64Ref/NTT120Ref/ZnxRef implementors.',
-    level_note='Trusted: the VecZnx accessor interface (I-LAYOUT), vstd, the extraction rules; wrapping-free preconditions (no i64 overflow) are part of the contracts; big-accumulator (i128) variants, split_ring/merge_rings and AVX kernels are not covered by this check.',
+    level_note='Trusted: the VecZnx accessor interface (I-LAYOUT), vstd, the extraction rules; wrapping-free preconditions (no i64 overflow) are part of the contracts; split_ring and merge_rings are covered as mutual inverses at the coefficient level (part i, coefficient k <-> coefficient gap*k+i); big-accumulator (i128) variants and AVX kernels are not covered by this check.',
     units=[
-        V('znx'), V('vec_znx_arith'), V('vec_znx_ring'), V('vec_znx_merge'), V('vec_znx_big'), V('galois'),
+        V('znx'), V('vec_znx_arith'), V('vec_znx_ring'), V('vec_znx_merge'), V('vec_znx_split'), V('vec_znx_big'), V('galois'),
         K('poulpy-cpu-ref', 'verif_kani', ['c09_mask_mod_i64', 'c09_mask_mod_usize', 'c03_mask_mod_u64'], cls='complete', timeout=600,
           functions=['leaf fact: p & (m-1) == p mod m for power-of-two m (imported by znx_rotate / znx_automorphism_ref / galois_element proofs)']),
     ],
     trusted_base=VERUS_TRUST,
     assumptions=['no i64 overflow in limb-wise add/sub/negate (stated as preconditions; the debug profile would panic, the release profile wraps)',
                  'ring degree N a power of two <= 2^28 for rotate/automorphism (precondition)'],
-    remainder='vec_znx_split_ring (only a bounded Kani harness, thorough tier), FFT64 big-accumulator automorphism/negate and all NTT120 (i128) big-accumulator variants, AVX kernels (C10)',
+    remainder='FFT64 big-accumulator automorphism/negate and all NTT120 (i128) big-accumulator variants, AVX kernels (C10)',
 )
 
 PROPS['C11'] = dict(
@@ -97,7 +97,7 @@ PROPS['C11'] = dict(
     technique='Verus postconditions that define every limb of the selected column from the inputs only, plus frame clauses over all other limb blocks, on the extracted real text',
     level_text='Unbounded proof for the coefficient-domain column operations: each ensures gives final(res).limb(col, j) for all j < size as a function of the read-only inputs (no old(res) on the right-hand side for out-of-place ops) and frame_ok: every block outside (col, 0..size) is unchanged.',
     level_note='Covers the vec_znx_* reference operations and the transform-domain wrappers of vec_znx_dft.rs (fft64 and ntt120, numeric kernels abstract) under contract (see functions_under_contract); idft/svp/vmp/convolution and the core layer are not covered by this check.',
-    units=[V('vec_znx_arith'), V('vec_znx_ring'), V('vec_znx_merge'), V('vec_znx_big'), V('vec_znx_normalize'), V('vec_znx_dft'), V('vec_znx_dft_ntt120'),
+    units=[V('vec_znx_arith'), V('vec_znx_ring'), V('vec_znx_merge'), V('vec_znx_split'), V('vec_znx_big'), V('vec_znx_normalize'), V('vec_znx_dft'), V('vec_znx_dft_ntt120'),
            K('poulpy-cpu-ref', 'verif_kani::c11_ak', ['c11_ak_dft_apply__a3_r2_step2_off1', 'c11_ak_dft_apply__a2_r3_step1_off0', 'c11_ak_dft_apply__a3_r3_step2_off0', 'c11_ak_dft_apply__a2_r2_step1_off1'],
              cls='bounded', tier='thorough', timeout=1500, bound='FFT64Ref, N=8, two output columns, (a_size, res_size, step, offset) constant per harness; numeric kernels abstract',
              functions=['VecZnxDftApply::vec_znx_dft_apply (fft64 reference, real shape logic; fft_ref / reim_from_znx_i64_ref / table fills replaced by bit-level mixers)'],
@@ -111,7 +111,7 @@ PROPS['C08'] = dict(
     level='proof',
     technique='Kani function-level contracts on the real digit/carry and step kernels (uniform law x_out + c_out*2^b == a*2^lsh + c_in) per radix, imported as trait contracts into a Verus value theorem for vec_znx_normalize_assign',
     level_text='Kernel law: complete in all 64-bit values, lsh and carries for each radix constant (quick: 5 radices, thorough: 18 radices spread over 1..62). Limb loop: unbounded Verus proof that in-place normalisation preserves the torus value mod 1 and leaves every digit balanced.',
-    level_note='The Verus theorem imports the kernel law as trait contracts (cross-engine chain); out-of-place/cross-radix normalisation and shifts are covered only by bounded harnesses (N=1, small radices, constant offsets) reported under bounded_checks; encode/decode are not covered.',
+    level_note='The Verus theorem imports the kernel law as trait contracts (cross-engine chain); out-of-place/cross-radix normalisation and shifts are covered only by bounded harnesses (N=1, small radices, constant offsets) reported under bounded_checks; encode/decode (i64, i128, single coefficient) are covered by bounded harnesses: decode(encode(x)) == x mod 2^k, exact for |x| < 2^(k-2), digits balanced, encoded torus value == x*2^-k mod 1, other coefficients untouched; decode_vec_float is not covered.',
     units=kernel_units() + [V('vec_znx_normalize'),
         K('poulpy-cpu-ref', 'verif_kani::c08_shift', ['c08_shift__b4_s2_k0', 'c08_shift__b4_s2_k5', 'c08_shift__b4_s2_k9'], cls='bounded', timeout=900,
           bound='N=1, radix 4, size 2, shift amount constant; limbs un-normalised (|x| < 2^12)',
@@ -124,10 +124,17 @@ PROPS['C08'] = dict(
         K('poulpy-cpu-ref', 'verif_kani::c08_norm', ['c08_normalize__b4_b4_s2_s2_off0', 'c08_normalize__b4_b4_s2_s2_off3', 'c08_normalize__b4_b4_s1_s2_off4', 'c08_normalize__b4_b4_s2_s2_off9',
           'c08_normalize__b4_b3_s2_s2_off0', 'c08_normalize__b4_b5_s2_s1_off1', 'c08_normalize__b4_b4_s1_s1_offm9_gap', 'c08_normalize__b4_b4_s1_s1_offm5_gap'],
           cls='bounded', tier='thorough', timeout=900, bound='as above'),
+        K('poulpy-hal', 'layouts::encoding::verif_kani', ['c08_div_round_i64_pow2'], cls='complete', timeout=900,
+          functions=['layouts::encoding::div_round_i64 (every dividend, every power-of-two divisor 2^0..2^61)']),
+        K('poulpy-hal', 'layouts::encoding::verif_kani', ['c08_encode_round_trip__b3_k5', 'c08_encode_round_trip__b16_k17', 'c08_encode_round_trip__b16_k48'], cls='bounded', timeout=1200,
+          bound='N=2, 3 limbs, (radix, k) constant per harness; value, index and stale receiver contents symbolic',
+          functions=['VecZnx::encode_coeff_i64', 'encode_vec_i64', 'encode_vec_i128', 'decode_coeff_i64', 'decode_vec_i64', 'decode_vec_i128']),
+        K('poulpy-hal', 'layouts::encoding::verif_kani', ['c08_encode_round_trip__b3_k%d' % k for k in (1, 2, 3, 4, 6, 7, 8, 9)] + ['c08_encode_round_trip__b16_k%d' % k for k in (1, 15, 16, 32, 33, 47)],
+          cls='bounded', tier='thorough', timeout=1200, bound='as above: radix 3 with every k in 1..9, radix 16 with k in {1,15,16,17,32,33,47,48}'),
     ],
-    trusted_base=VERUS_TRUST + ['kernel law per radix imported from Kani harnesses c08_{first,middle,final,digit}_b<radix> (quick tier discharges radices %s only)' % KERNEL_QUICK],
+    trusted_base=VERUS_TRUST + [FMT_STUB, 'kernel law per radix imported from Kani harnesses c08_{first,middle,final,digit}_b<radix> (quick tier discharges radices %s only)' % KERNEL_QUICK],
     assumptions=['inputs within the documented headroom |x| <= 2^61 (normalize_assign) / |a| <= 2^62, |carry| <= 2^61 (kernels)'],
-    remainder='vec_znx_normalize and shifts beyond the bounded shapes (only N=1, small radices); right shifts that leave an empty limb gap (open known finding, DESIGN §6-10); fused big-normalise forms; encode/decode',
+    remainder='vec_znx_normalize and shifts beyond the bounded shapes (only N=1, small radices); right shifts that leave an empty limb gap (open known finding, DESIGN §6-10); fused big-normalise forms; encode/decode beyond N=2 / 3 limbs / radices 3 and 16; decode_vec_float',
 )
 
 PROPS['C12'] = dict(
